@@ -970,8 +970,9 @@ func (s *server) MutateRows(req *btpb.MutateRowsRequest, stream btpb.Bigtable_Mu
 		if err := applyMutations(tbl, r, entry.Mutations, now); err != nil {
 			code = int32(codes.Internal)
 			msg = err.Error()
+		} else {
+			tbl.updateRow(r)
 		}
-		tbl.updateRow(r)
 		res.Entries[i] = &btpb.MutateRowsResponse_Entry{
 			Index:  int64(i),
 			Status: &statpb.Status{Code: code, Message: msg},
